@@ -6,6 +6,7 @@ import GscribModel.Props.C06
 import GscribModel.Props.C03
 import GscribModel.Props.C20
 import GscribModel.Props.C11
+import GscribModel.Props.C04
 /-! # C01 and C02 for the translated source
 
 `MotionTie_run` (every history: running the translated source of the builder's commands is running the model) composed with the
@@ -342,3 +343,45 @@ theorem SourceTie_C11 (bA bR : B) (t : Pt) (ps : VParams) (h : Rat)
   have er' : (GCodeCore.move (absB bR) (offsetOf bR.axes.resolve t) ps h).1._current_axes =
       (step bR (.move false (VPt.ofPt (offsetOf bR.axes.resolve t)) ps h)).b.axes := er.symm
   rw [ea', er', c2]
+
+/-! ## C04 (transformed moves) read off the translated source -/
+open GscribModel.MotionTie GscribModel.PointTie in
+/-- **C04 (absolute mode) for the translated source**: with `self.transform.apply_transform` the map of ANY transformer state, the
+    translated `move()` / `rapid()` in G90 succeeds, writes one `G1` / `G0` in which every axis mentioned carries the image under
+    the transform of the requested target (tracked position with the requested coordinates replaced), and tracks that target. -/
+theorem SourceTie_C04_abs (c : GscribModel.Transform.Core) (b : B) (rapid : Bool) (req : GscribModel.Transform.Pt) (h : Rat)
+    (hax : b.axes = ofT c.axes) (hrel : b.rel = c.rel) (hh : b.hooks = []) (hb : b.bounds.axes = none) (hr : c.rel = false) :
+    let g := if rapid then GCodeCore.rapid_T (xfOf c.tr) (absB b) (ofT req) [] h else GCodeCore.move_T (xfOf c.tr) (absB b) (ofT req) [] h
+    g.2 = none ∧
+    g.1._current_axes = ofT (GscribModel.Transform.Pt.ofV3 (c.axes.resolve.replace req)) ∧
+    g.1.out.map conv = [([if rapid then "G0" else "G1"], ofT (c.transformMove req).1, [])] ∧
+    ∀ ax v, (c.transformMove req).1.get ax = some v → v = (c.A.apply (c.axes.resolve.replace req)).get ax := by
+  obtain ⟨g1, g2, g3⟩ := MotionTie_go_xf c b rapid req h hax hrel hh hb
+  obtain ⟨_, w2, w3⟩ := C04_abs_word c rapid req hr
+  exact ⟨g1, by rw [g2, w2], g3, w3⟩
+
+open GscribModel.MotionTie GscribModel.PointTie in
+/-- **C04 (relative mode) for the translated source**: in G91 every axis mentioned carries the image of the requested displacement
+    under the linear part of the transform; the tracked position advances by the untransformed displacement. -/
+theorem SourceTie_C04_rel (c : GscribModel.Transform.Core) (b : B) (rapid : Bool) (req : GscribModel.Transform.Pt) (h : Rat)
+    (hax : b.axes = ofT c.axes) (hrel : b.rel = c.rel) (hh : b.hooks = []) (hb : b.bounds.axes = none) (hr : c.rel = true) :
+    let g := if rapid then GCodeCore.rapid_T (xfOf c.tr) (absB b) (ofT req) [] h else GCodeCore.move_T (xfOf c.tr) (absB b) (ofT req) [] h
+    g.2 = none ∧
+    g.1._current_axes = ofT (GscribModel.Transform.Pt.ofV3 (c.axes.resolve.add req.resolve)) ∧
+    g.1.out.map conv = [([if rapid then "G0" else "G1"], ofT (c.transformMove req).1, [])] ∧
+    ∀ ax v, (c.transformMove req).1.get ax = some v → v = (c.A.lin.apply req.resolve).get ax := by
+  obtain ⟨g1, g2, g3⟩ := MotionTie_go_xf c b rapid req h hax hrel hh hb
+  obtain ⟨_, w2, w3⟩ := C04_rel_word c rapid req hr
+  exact ⟨g1, by rw [g2, w2], g3, w3⟩
+
+open GscribModel.MotionTie GscribModel.PointTie in
+/-- **C04 (which axes) for the translated source**: the one statement the translated `move()` / `rapid()` writes mentions exactly
+    the requested axes and those whose machine coordinate has to change - in either distance mode, for any transformer state. -/
+theorem SourceTie_C04_mentions (c : GscribModel.Transform.Core) (b : B) (rapid : Bool) (req : GscribModel.Transform.Pt) (h : Rat)
+    (hax : b.axes = ofT c.axes) (hrel : b.rel = c.rel) (hh : b.hooks = []) (hb : b.bounds.axes = none) :
+    ∃ w : GscribModel.Transform.Pt,
+      (if rapid then GCodeCore.rapid_T (xfOf c.tr) (absB b) (ofT req) [] h else GCodeCore.move_T (xfOf c.tr) (absB b) (ofT req) [] h).1.out.map conv
+        = [([if rapid then "G0" else "G1"], ofT w, [])] ∧
+      ∀ ax, (w.get ax).isSome ↔ ((req.get ax).isSome ∨
+        (c.A.apply c.axes.resolve).get ax ≠ (c.A.apply (c.go rapid req).1.axes.resolve).get ax) :=
+  ⟨(c.transformMove req).1, (MotionTie_go_xf c b rapid req h hax hrel hh hb).2.2, fun ax => C04_mentions c rapid req ax⟩
